@@ -30,6 +30,9 @@ CHECKS = {
  'C09': ('Hypothesis-generated measurement sets from query families with known row-space membership vs dense pinv reference (differential), all four copies of the estimator',
          'Generated-input search over query families/sizes 1-64/spellings/noise scales; model.total compared with an independent inverse-variance reference, noise-free clause total==N, given totals honoured exactly.',
          'mixture_inference.estimate_total is AST-extracted (jax absent); singular values of generated dense queries kept in [0.5,5] so row-space membership is unambiguous.'),
+ 'C08': ('Hypothesis-generated estimation problems (3 solvers, iteration counts incl. 1, early exits, structural zeros) vs brute-force joint of the returned parameters; all-subsets query sweep',
+         'Generated-input search: the returned model is queried on every attribute subset (drawn orders) and each answer, the stored marginals and the data vector are compared with the joint of the stored potentials; finite / non-negative / sums-to-total asserted explicitly.',
+         'One-cell projections and all-zero queries are not given to RDA/IG (ARPACK preconditions). F14 (MD step doubling) is a listed known finding recognised by its root-cause signature.'),
 }
 NOT_YET = 'check not built yet (work in progress in this session); see DESIGN.md for the planned check'
 
